@@ -721,4 +721,323 @@ theorem GC.intersect_G (a b : GC) (ha : a.wfG = true) (hb : b.wfG = true) :
   obtain ⟨r, h1, h2, h3⟩ := GC.intersect_exact algG rfl a b ((Pc_wfG a).mpr ha) ((Pc_wfG b).mpr hb)
   exact ⟨r, h1, (Pc_wfG r).mp h2, fun v => h3 _ ⟨v, rfl⟩⟩
 
+/-! ### `UnionConstraint.union` -/
+
+theorem addNew_sem (f : Atom → Bool) (l : List GS) (c : GS) :
+    (addNew l c).any (fun c => c.sem f) = (l.any (fun c => c.sem f) || c.sem f) := by
+  unfold addNew
+  by_cases h : l.contains c = true
+  · rw [if_pos h]
+    cases hc : c.sem f
+    · simp
+    · simp only [Bool.or_true, List.any_eq_true]; exact ⟨c, by simpa using h, hc⟩
+  · rw [if_neg h]; simp [List.any_append]
+
+theorem addNew_mem (l : List GS) (c m : GS) (h : m ∈ addNew l c) : m ∈ l ∨ m = c := by
+  unfold addNew at h
+  by_cases hc : l.contains c = true
+  · rw [if_pos hc] at h; exact Or.inl h
+  · rw [if_neg hc] at h; simpa using h
+
+theorem addNew_ne_nil (l : List GS) (c : GS) : addNew l c ≠ [] := by
+  unfold addNew
+  by_cases hc : l.contains c = true
+  · rw [if_pos hc]; intro e; subst e; simp at hc
+  · rw [if_neg hc]; simp
+
+theorem addNew_ne_nil_of (l : List GS) (c : GS) (h : l ≠ []) : addNew l c ≠ [] := addNew_ne_nil l c
+
+theorem foldl_addNew_sem (f : Atom → Bool) (l2 : List GS) : ∀ l1 : List GS,
+    (l2.foldl addNew l1).any (fun c => c.sem f) = (l1.any (fun c => c.sem f) || l2.any (fun c => c.sem f)) := by
+  induction l2 with
+  | nil => intro l1; simp
+  | cons c l2 ih => intro l1; simp only [List.foldl_cons, ih, addNew_sem, List.any_cons, Bool.or_assoc]
+
+theorem foldl_addNew_mem (l2 : List GS) : ∀ (l1 : List GS) (m : GS), m ∈ l2.foldl addNew l1 → m ∈ l1 ∨ m ∈ l2 := by
+  induction l2 with
+  | nil => intro l1 m h; exact Or.inl h
+  | cons c l2 ih =>
+    intro l1 m h
+    rcases ih _ m h with h | h
+    · rcases addNew_mem l1 c m h with h | h
+      · exact Or.inl h
+      · exact Or.inr (by simp [h])
+    · exact Or.inr (by simp [h])
+
+theorem foldl_addNew_ne_nil (l2 : List GS) : ∀ (l1 : List GS), (l1 ≠ [] ∨ l2 ≠ []) → l2.foldl addNew l1 ≠ [] := by
+  induction l2 with
+  | nil => intro l1 h; rcases h with h | h; exact h; exact absurd rfl h
+  | cons c l2 ih => intro l1 _; exact ih _ (Or.inl (addNew_ne_nil l1 c))
+
+/-- what the three lists of the loop state cover -/
+def UState.cov (st : UState) (f : Atom → Bool) : Bool :=
+  st.ours.any (fun c => c.sem f) || st.theirs.any (fun c => c.sem f) || st.merged.any (fun c => c.sem f)
+
+def UState.all (st : UState) (P : GS → Prop) : Prop :=
+  (∀ m ∈ st.ours, P m) ∧ (∀ m ∈ st.theirs, P m) ∧ (∀ m ∈ st.merged, P m)
+
+def UState.nonempty (st : UState) : Prop := st.ours ≠ [] ∨ st.theirs ≠ [] ∨ st.merged ≠ []
+
+theorem all_addNew {P : GS → Prop} {l : List GS} {c : GS} (hl : ∀ m ∈ l, P m) (hc : P c) :
+    ∀ m ∈ addNew l c, P m := fun m hm => by
+  rcases addNew_mem l c m hm with h | h
+  · exact hl m h
+  · exact h ▸ hc
+
+section
+variable {P : GS → Prop} {F : (Atom → Bool) → Prop} (A : MemberAlg P F)
+include A
+
+theorem uStep_exact (st : UState) (hst : st.all P) (our their : GS) (hour : P our) (htheir : P their) :
+    (uStep st our their = .ok none ∧ ∀ f, F f → (our.sem f || their.sem f) = true) ∨
+    (∃ st', uStep st our their = .ok (some st') ∧ st'.all P ∧ st'.nonempty ∧
+      ∀ f, F f → st'.cov f = (st.cov f || our.sem f || their.sem f)) := by
+  obtain ⟨u, h1, h2, h3⟩ := A.union our their hour htheir
+  unfold uStep
+  rw [h1]
+  simp only
+  by_cases hany : u.isAny = true
+  · left
+    rw [if_pos hany]
+    refine ⟨rfl, fun f hf => ?_⟩
+    rw [← h3 f hf]
+    match u, hany with
+    | .s .any, _ => rfl
+  · right
+    rw [if_neg hany]
+    obtain ⟨ho, ht, hm⟩ := hst
+    match u, h2, h3 with
+    | .s (.atom a), h2, h3 =>
+      simp only
+      by_cases e1 : (GS.atom a == our) = true
+      · rw [if_pos e1]
+        have e1' : GS.atom a = our := by simpa using e1
+        refine ⟨_, rfl, ⟨all_addNew ho h2, ht, hm⟩, Or.inl (addNew_ne_nil _ _), fun f hf => ?_⟩
+        have := h3 f hf
+        simp only [GC.sem, e1'] at this
+        simp only [UState.cov, addNew_sem, e1']
+        cases h4 : our.sem f <;> cases h5 : their.sem f <;> simp_all
+      · rw [if_neg e1]
+        by_cases e2 : (GS.atom a == their) = true
+        · rw [if_pos e2]
+          have e2' : GS.atom a = their := by simpa using e2
+          refine ⟨_, rfl, ⟨ho, all_addNew ht htheir, hm⟩, Or.inr (Or.inl (addNew_ne_nil _ _)), fun f hf => ?_⟩
+          have := h3 f hf
+          simp only [GC.sem, e2'] at this
+          simp only [UState.cov, addNew_sem]
+          cases h4 : our.sem f <;> cases h5 : their.sem f <;> simp_all
+        · rw [if_neg e2]
+          refine ⟨_, rfl, ⟨ho, ht, all_addNew hm h2⟩, Or.inr (Or.inr (addNew_ne_nil _ _)), fun f hf => ?_⟩
+          have := h3 f hf
+          simp only [GC.sem] at this
+          simp only [UState.cov, addNew_sem, this]
+          cases h4 : our.sem f <;> cases h5 : their.sem f <;> simp
+    | .s .any, _, _ => exact absurd rfl hany
+    | .s .empty, _, _ =>
+      refine ⟨_, rfl, ⟨all_addNew ho hour, all_addNew ht htheir, hm⟩, Or.inl (addNew_ne_nil _ _), fun f hf => ?_⟩
+      simp only [UState.cov, addNew_sem]
+      cases h4 : our.sem f <;> cases h5 : their.sem f <;> simp
+    | .s (.multi _ _), _, _ =>
+      refine ⟨_, rfl, ⟨all_addNew ho hour, all_addNew ht htheir, hm⟩, Or.inl (addNew_ne_nil _ _), fun f hf => ?_⟩
+      simp only [UState.cov, addNew_sem]
+      cases h4 : our.sem f <;> cases h5 : their.sem f <;> simp
+    | .union _, _, _ =>
+      refine ⟨_, rfl, ⟨all_addNew ho hour, all_addNew ht htheir, hm⟩, Or.inl (addNew_ne_nil _ _), fun f hf => ?_⟩
+      simp only [UState.cov, addNew_sem]
+      cases h4 : our.sem f <;> cases h5 : their.sem f <;> simp
+end
+
+section
+variable {P : GS → Prop} {F : (Atom → Bool) → Prop} (A : MemberAlg P F)
+include A
+
+theorem uRow_exact (their : GS) (htheir : P their) (ms : List GS) (hms : ∀ m ∈ ms, P m) :
+    ∀ st : UState, st.all P →
+    (uRow their ms st = .ok none ∧ ∀ f, F f → (ms.any (fun c => c.sem f) || their.sem f) = true) ∨
+    (∃ st', uRow their ms st = .ok (some st') ∧ st'.all P ∧ (st.nonempty ∨ ms ≠ [] → st'.nonempty) ∧
+      ∀ f, F f → st'.cov f = (st.cov f || ms.any (fun c => c.sem f) || (!ms.isEmpty && their.sem f))) := by
+  induction ms with
+  | nil => intro st hst; right; exact ⟨st, rfl, hst, fun h => h.elim id (fun h => absurd rfl h), fun f _ => by simp⟩
+  | cons our ms ih =>
+    intro st hst
+    rcases uStep_exact A st hst our their (hms our (by simp)) htheir with ⟨h1, h2⟩ | ⟨st1, h1, h2, h3, h4⟩
+    · left
+      refine ⟨by simp only [uRow, h1], fun f hf => ?_⟩
+      have := h2 f hf
+      simp only [List.any_cons]
+      cases h5 : our.sem f <;> cases h6 : their.sem f <;> simp_all
+    · rcases ih (fun m hm => hms m (by simp [hm])) st1 h2 with ⟨g1, g2⟩ | ⟨st', g1, g2, g3, g4⟩
+      · left
+        refine ⟨by simp only [uRow, h1]; exact g1, fun f hf => ?_⟩
+        have := g2 f hf
+        simp only [List.any_cons]
+        cases h5 : our.sem f <;> cases h6 : their.sem f <;> simp_all
+      · right
+        refine ⟨st', by simp only [uRow, h1]; exact g1, g2, fun _ => g3 (Or.inl h3), fun f hf => ?_⟩
+        rw [g4 f hf, h4 f hf]
+        simp only [List.any_cons, List.isEmpty_cons, Bool.not_false, Bool.true_and]
+        cases h5 : our.sem f <;> cases h6 : their.sem f <;> cases h7 : st.cov f <;> simp
+
+theorem uLoop_exact (ms : List GS) (hms : ∀ m ∈ ms, P m) (hne : ms ≠ []) (ns : List GS) (hns : ∀ n ∈ ns, P n) :
+    ∀ st : UState, st.all P →
+    (uLoop ns ms st = .ok none ∧ ∀ f, F f → (ms.any (fun c => c.sem f) || ns.any (fun c => c.sem f)) = true) ∨
+    (∃ st', uLoop ns ms st = .ok (some st') ∧ st'.all P ∧ (st.nonempty ∨ ns ≠ [] → st'.nonempty) ∧
+      ∀ f, F f → st'.cov f =
+        (st.cov f || (!ns.isEmpty && ms.any (fun c => c.sem f)) || ns.any (fun c => c.sem f))) := by
+  induction ns with
+  | nil => intro st hst; right; exact ⟨st, rfl, hst, fun h => h.elim id (fun h => absurd rfl h), fun f _ => by simp⟩
+  | cons their ns ih =>
+    intro st hst
+    rcases uRow_exact A their (hns their (by simp)) ms hms st hst with ⟨h1, h2⟩ | ⟨st1, h1, h2, h3, h4⟩
+    · left
+      refine ⟨by simp only [uLoop, h1], fun f hf => ?_⟩
+      have := h2 f hf
+      simp only [List.any_cons]
+      cases h5 : ms.any (fun c => c.sem f) <;> cases h6 : their.sem f <;> simp_all
+    · rcases ih (fun m hm => hns m (by simp [hm])) st1 h2 with ⟨g1, g2⟩ | ⟨st', g1, g2, g3, g4⟩
+      · left
+        refine ⟨by simp only [uLoop, h1]; exact g1, fun f hf => ?_⟩
+        have := g2 f hf
+        simp only [List.any_cons]
+        cases h5 : ms.any (fun c => c.sem f) <;> cases h6 : their.sem f <;> simp_all
+      · right
+        refine ⟨st', by simp only [uLoop, h1]; exact g1, g2, fun _ => g3 (Or.inl (h3 (Or.inr hne))), fun f hf => ?_⟩
+        rw [g4 f hf, h4 f hf]
+        have : ms.isEmpty = false := by cases ms <;> simp_all
+        simp only [List.any_cons, List.isEmpty_cons, Bool.not_false, Bool.true_and, this]
+        cases h5 : ms.any (fun c => c.sem f) <;> cases h6 : their.sem f <;> cases h7 : st.cov f <;>
+          cases h8 : ns.isEmpty <;> simp
+
+end
+
+theorem finishUnion_sem (f : Atom → Bool) (l : List GS) :
+    (finishUnion l).sem f = l.any (fun c => c.sem f) := by
+  match l with
+  | [] => rfl
+  | [c] => simp [finishUnion, GC.sem]
+  | a :: b :: t => simp [finishUnion, GC.sem]
+
+theorem finishUnion_Pc (P : GS → Prop) (l : List GS) (h : ∀ m ∈ l, P m) (hne : l ≠ []) :
+    Pc P (finishUnion l) := by
+  match l, h, hne with
+  | [], _, hne => exact absurd rfl hne
+  | [c], h, _ => exact h c (by simp)
+  | a :: b :: t, h, _ => exact ⟨by simp, h⟩
+
+section
+variable {P : GS → Prop} {F : (Atom → Bool) → Prop} (A : MemberAlg P F)
+include A
+
+/-- the `isinstance(other, UnionConstraint)` part of `UnionConstraint.union` -/
+theorem unionUnionU_exact (hAny : P .any) (ms ns : List GS) (hms : Pc P (.union ms)) (hns : Pc P (.union ns)) :
+    ∃ r, (match uLoop ns ms ⟨[], [], []⟩ with
+          | .error e => (.error e : PyM GC)
+          | .ok none => .ok .any
+          | .ok (some st) => .ok (finishUnion ((st.theirs ++ st.merged).foldl addNew st.ours))) = .ok r ∧
+      Pc P r ∧ ∀ f, F f → r.sem f = (ms.any (fun c => c.sem f) || ns.any (fun c => c.sem f)) := by
+  have h0 : (⟨[], [], []⟩ : UState).all P := ⟨by simp, by simp, by simp⟩
+  rcases uLoop_exact A ms hms.2 hms.1 ns hns.2 ⟨[], [], []⟩ h0 with ⟨h1, h2⟩ | ⟨st, h1, h2, h3, h4⟩
+  · rw [h1]
+    exact ⟨_, rfl, hAny, fun f hf => by rw [h2 f hf]; rfl⟩
+  · rw [h1]
+    have hne := h3 (Or.inr hns.1)
+    refine ⟨_, rfl, finishUnion_Pc P _ ?_ ?_, fun f hf => ?_⟩
+    · intro m hm
+      rcases foldl_addNew_mem _ _ m hm with h | h
+      · exact h2.1 m h
+      · rcases List.mem_append.mp h with h | h
+        · exact h2.2.1 m h
+        · exact h2.2.2 m h
+    · apply foldl_addNew_ne_nil
+      rcases hne with h | h | h
+      · exact Or.inl h
+      · exact Or.inr (by simp [h])
+      · exact Or.inr (by simp [h])
+    · rw [finishUnion_sem, foldl_addNew_sem, List.any_append]
+      have := h4 f hf
+      simp only [UState.cov] at this
+      rw [Bool.or_assoc] at this
+      rw [this]
+      have : ns.isEmpty = false := by cases ns <;> simp_all [Pc]
+      simp [this]
+
+theorem unionUnion_exact (hAny : P .any) (ms : List GS) (hms : Pc P (.union ms)) (other : GC) (ho : Pc P other) :
+    ∃ r, unionUnion ms other = .ok r ∧ Pc P r ∧
+      ∀ f, F f → r.sem f = ((GC.union ms).sem f || other.sem f) := by
+  match other, ho with
+  | .s .any, ho => exact ⟨_, rfl, ho, fun f _ => by simp [GC.sem, GS.sem]⟩
+  | .s .empty, ho => exact ⟨_, rfl, hms, fun f _ => by simp [GC.sem, GS.sem]⟩
+  | .union ns, ho =>
+    simp only [unionUnion, GC.isAny, GC.isEmpty, Bool.false_eq_true, if_false]
+    by_cases h0 : (GC.union ns == GC.union ms) = true
+    · rw [if_pos h0]
+      have : ns = ms := by simpa using h0
+      subst this
+      exact ⟨_, rfl, hms, fun f _ => by simp [GC.sem]⟩
+    · rw [if_neg h0]
+      exact unionUnionU_exact A hAny ms ns hms ho
+  | .s (.atom o), ho =>
+    simp only [unionUnion, GC.isAny, GS.isAny, GC.isEmpty, GS.isEmpty, Bool.false_eq_true, if_false]
+    have h0 : ¬ (GC.s (.atom o) == GC.union ms) = true := by simp
+    rw [if_neg h0]
+    have hns : Pc P (.union [.atom o]) := ⟨by simp, fun m hm => by simp at hm; exact hm ▸ ho⟩
+    obtain ⟨r, g1, g2, g3⟩ := unionUnionU_exact A hAny ms [.atom o] hms hns
+    exact ⟨r, g1, g2, fun f hf => by rw [g3 f hf]; simp [GC.sem]⟩
+  | .s (.multi y ds), ho =>
+    simp only [unionUnion, GC.isAny, GS.isAny, GC.isEmpty, GS.isEmpty, Bool.false_eq_true, if_false]
+    have h0 : ¬ (GC.s (.multi y ds) == GC.union ms) = true := by simp
+    rw [if_neg h0]
+    by_cases h1 : (ms.any (atomIn ds)) = true
+    · rw [if_pos h1]
+      refine ⟨_, rfl, hms, fun f _ => ?_⟩
+      simp only [List.any_eq_true] at h1
+      obtain ⟨c, hc, hcd⟩ := h1
+      simp only [GC.sem, GS.sem]
+      cases hall : ds.all f
+      · simp
+      · simp only [Bool.or_true, List.any_eq_true]
+        match c, hc, hcd with
+        | .atom a, hc, hcd =>
+          refine ⟨_, hc, ?_⟩
+          simp only [List.all_eq_true] at hall
+          exact hall a (by simpa [atomIn] using hcd)
+    · rw [if_neg h1]
+      refine ⟨_, rfl, finishUnion_Pc P _ ?_ (by simp), fun f _ => ?_⟩
+      · intro m hm
+        rcases List.mem_append.mp hm with h | h
+        · exact hms.2 m h
+        · simp at h; exact h ▸ ho
+      · rw [finishUnion_sem]; simp [GC.sem, GS.sem, List.any_append]
+
+/-- `GC.unionWith` is total and exact on objects satisfying the invariant -/
+theorem GC.unionWith_exact (hAny : P .any) (a b : GC) (ha : Pc P a) (hb : Pc P b) :
+    ∃ r, a.unionWith b = .ok r ∧ Pc P r ∧ ∀ f, F f → r.sem f = (a.sem f || b.sem f) := by
+  match a, ha with
+  | .union ms, ha => exact unionUnion_exact A hAny ms ha b hb
+  | .s .any, ha => exact ⟨_, rfl, ha, fun f _ => by simp [GC.sem, GS.sem]⟩
+  | .s .empty, _ => exact ⟨b, rfl, hb, fun f _ => by simp [GC.sem, GS.sem]⟩
+  | .s (.atom x), ha =>
+    match b, hb with
+    | .s b, hb =>
+      obtain ⟨r, g1, g2, g3⟩ := A.union (.atom x) b ha hb
+      exact ⟨r, g1, g2, fun f hf => by rw [g3 f hf]; rfl⟩
+    | .union ns, hb =>
+      have hx : Pc P (.union [.atom x]) := ⟨by simp, fun m hm => by simp at hm; exact hm ▸ ha⟩
+      obtain ⟨r, g1, g2, g3⟩ := unionUnion_exact A hAny [.atom x] hx (.union ns) hb
+      exact ⟨r, g1, g2, fun f hf => by rw [g3 f hf]; simp [GC.sem]⟩
+  | .s (.multi y cs), ha =>
+    match b, hb with
+    | .s b, hb =>
+      obtain ⟨r, g1, g2, g3⟩ := A.union (.multi y cs) b ha hb
+      exact ⟨r, g1, g2, fun f hf => by rw [g3 f hf]; rfl⟩
+    | .union ns, hb =>
+      obtain ⟨r, g1, g2, g3⟩ := unionUnion_exact A hAny ns hb (.s (.multi y cs)) ha
+      exact ⟨r, g1, g2, fun f hf => by rw [g3 f hf, Bool.or_comm]⟩
+end
+
+theorem GC.unionWith_G (a b : GC) (ha : a.wfG = true) (hb : b.wfG = true) :
+    ∃ r, a.unionWith b = .ok r ∧ r.wfG = true ∧ ∀ v, r.den v = (a.den v || b.den v) := by
+  obtain ⟨r, h1, h2, h3⟩ := GC.unionWith_exact algG rfl a b ((Pc_wfG a).mpr ha) ((Pc_wfG b).mpr hb)
+  exact ⟨r, h1, (Pc_wfG r).mp h2, fun v => h3 _ ⟨v, rfl⟩⟩
+
 end Poetry.Generic
